@@ -955,7 +955,27 @@ package types
 //@   ensures r == evHashOf(e)
 
 // ---------------------------------------------------------------- C13/C18: votes on the wire
-//@ trusted func (vote *Vote) ValidateBasic() (err error)
+// A vote accepted from a peer has a known type, a signature, and a block id that is either entirely
+// empty (a nil vote) or complete (hash and part-set header both present): Vote.CommitSig panics on
+// anything in between, and it runs when a commit is assembled from the stored votes.
+//@ func (psh PartSetHeader) IsZero() (r bool)
+//@   for C18
+//@   safe
+//@   modifies nothing
+//@   ensures r <==> psh == PartSetHeader{}
+//@ func (blockID BlockID) IsComplete() (r bool)
+//@   for C18
+//@   safe
+//@   modifies nothing
+//@   ensures r <==> blockID.Hash != common.Hash{} && blockID.PartsHeader != PartSetHeader{}
+//@ func (vote *Vote) ValidateBasic() (err error)
+//@   for C18 C02
+//@   safe
+//@   requires vote != nil
+//@   modifies nothing
+//@   ensures [typeKnown] err == nil ==> vote.Type == kproto.PrevoteType || vote.Type == kproto.PrecommitType
+//@   ensures [blockIDEmptyOrComplete] err == nil ==> vote.BlockID == BlockID{} || (vote.BlockID.Hash != common.Hash{} && vote.BlockID.PartsHeader != PartSetHeader{})
+//@   ensures [signed] err == nil ==> len(vote.Signature) > 0
 //@ func VoteFromProto(pv *kproto.Vote) (r *Vote, err error)
 //@   for C13 C18
 //@   ensures pv == nil ==> err != nil
